@@ -142,6 +142,21 @@ def limit_guards(ctx, rep, R, prefix):
     rep.floor(R, 'limit guard states', len(res), 12)
 
 
+def identity_rule(ctx, rep, R, prefix):
+    """IdentityIndiscernability folded over mock branches with several worlds (rulefold; = C01.R9 / C10.R8): the substitution at a
+    world is offered unless its result is on the branch at that world.  Shared by the properties that compare verdicts across
+    runs or read a countermodel off an open branch: a substitution switched off by a copy elsewhere leaves a branch unsaturated."""
+    from .. import rulefold
+    res, cons = rulefold.fold_identity_indiscernability(ctx.m, deep=rep.tier == 'thorough')
+    rep.consult(*cons)
+    for ok, case, detail in res:
+        rep.instance(R, ok=ok, nontrivial=case)
+        if not ok:
+            rep.finding(R, f'{prefix}/{case}', cons[0].split(' ')[0], 'cpl.Rules.IdentityIndiscernability._get_node_targets', f'{case}: {detail}')
+    rep.floor(prefix, 'identity/predicate branch shapes', len(res), 120)
+    return len(res)
+
+
 def fair_gate(ctx, rep, R, prefix):
     """No starvation behind the fairness gate (helpersfold.fold_fair_gate); shared by C02.R8 and the properties that compare
     verdicts across runs (C09 premise order, C10 added premises, C11 logic pairs): an unsaturated open branch flips a verdict."""
